@@ -8,14 +8,26 @@ Import ListNotations.
 Open Scope Z_scope.
 
 (* ---------- syntactic functions ---------- *)
-Lemma tr1_unfold ret p :
-  tr1 ret p = match p with
+Lemma knext_unfold k p :
+  knext k p = match p with
+              | PTuple _ es => k + Z.of_nat (length es)
+              | PWhile _ b | PFor _ _ b => klist k b
+              | _ => k
+              end.
+Proof.
+  assert (G : forall l k0, (fix go (k : Z) (l : list pstmt) : Z := match l with [] => k | x :: r => go (knext k x) r end) k0 l = klist k0 l).
+  { intros l k0. reflexivity. }
+  destruct p; try reflexivity; cbn; apply G.
+Qed.
+
+Lemma tr1_unfold ret k p :
+  tr1 ret k p = match p with
           | PAssign x e => [NAssign x (XE (a_id e))]
           | PAug x op e _ => [NAssign x (XAug x op (a_id e))]
-          | PTuple _ _ => []
-          | PIf c b el e => [NIf ((a_id c, trn ret b) :: trnb ret el) (trn ret e)]
-          | PWhile c b => [NWhile (a_id c) (trn false b)]
-          | PFor x c b => [NFor x (a_id c) (trn false b)]
+          | PTuple xs es => tuple_tmps es k ++ tup_asgs xs k
+          | PIf c b el e => [NIf ((a_id c, trn ret k b) :: trnb ret k el) (trn ret k e)]
+          | PWhile c b => [NWhile (a_id c) (trn false k b)]
+          | PFor x c b => [NFor x (a_id c) (trn false k b)]
           | PBreak => [NBreak]
           | PContinue => if ret then [NReturn] else [NContinue]
           | PWrite e => [NWrite (a_id e)]
@@ -23,8 +35,8 @@ Lemma tr1_unfold ret p :
           | PExprS e => if closed_const e then [] else [NExprS (a_id e)]
           end.
 Proof.
-  assert (G : forall rt l, (fix go (rt : bool) (l : list pstmt) : list cnode := match l with [] => [] | x :: r => tr1 rt x ++ go rt r end) rt l = trn rt l).
-  { intros rt l. induction l as [|x r IHl]; [reflexivity|]. cbn [trn]. rewrite <- IHl. reflexivity. }
+  assert (G : forall rt l k0, (fix go (rt : bool) (k : Z) (l : list pstmt) : list cnode := match l with [] => [] | x :: r => tr1 rt k x ++ go rt (knext k x) r end) rt k0 l = trn rt k0 l).
+  { intros rt l k0. reflexivity. }
   destruct p; try reflexivity; cbn; rewrite ?G; try reflexivity.
   all: f_equal; f_equal; f_equal.
   all: induction elifs as [|[c' b] r IH]; [reflexivity|]; cbn; rewrite G; f_equal; exact IH.
@@ -357,6 +369,12 @@ Section Mirrors.
     cexec (S f) sg (NDecl x t init false :: rest) =
     ccont f rest (match ceval sem augsem info init sg with
                   | Some v => Some ((x, (t, conv t v)) :: sg, [], ONormal) | None => None end).
+  Proof. reflexivity. Qed.
+
+  Lemma cexec_decltmp f sg k t init rest :
+    cexec (S f) sg (NDeclTmp k t init :: rest) =
+    ccont f rest (match ceval sem augsem info init sg with
+                  | Some v => Some ((tmp_name k, (t, conv t v)) :: sg, [], ONormal) | None => None end).
   Proof. reflexivity. Qed.
 
   Lemma cexec_break f sg rest : cexec (S f) sg (NBreak :: rest) = Some (sg, [], OBreak).
